@@ -43,7 +43,8 @@ namespace {
     char buf[128];
     char * p = buf;
 
-    if (name.length() > 127) {
+    // the name, a '_' and the terminator must fit into buf
+    if (name.length() > 126) {
         throw_(option_error, _f("Illegal option --%1%") % name);
     }
 
